@@ -106,3 +106,60 @@ def run(cx):
                 cx.ob("R31.units", "%s|arith-L%d" % (f.id, n), bool(a & b) and len(a | b) == 1,
                       "arithmetic/comparison mixes units %s and %s" % (sorted(a), sorted(b)), f.loc(s.line),
                       nontrivial=False)
+    # ---- R31.offset-accounting: the running byte offset advances by the length of the split piece itself -------
+    cur = {i for i in range(len(f.j["locals"])) if f.local_name(i) == "cur_index"}
+    if not cur:
+        raise AnchorError("running offset `cur_index` not found")
+    splits = [t for t in f.calls() if term_calls(t, r"core::str::<impl str>::(split|split_terminator|split_inclusive|lines)$")]
+    if len(splits) != 1:
+        raise AnchorError("expected one split of the file text into lines")
+    sep = op_const(splits[0].args[1]) if len(splits[0].args) > 1 else None
+    sep_len = len(sep["v"].encode()) if sep and sep.get("ty") == "char" and isinstance(sep.get("v"), str) else None
+    lens = []
+    for t in f.calls():
+        if term_calls(t, r"core::str::<impl str>::len$") and t.dst is not None:
+            # does this length reach cur_index?
+            for st in f.stmts():
+                if st.dst is not None and st.dst.local in cur and not st.dst.proj and st.rv != "use" or \
+                        (st.dst is not None and st.dst.local in cur and not st.dst.proj and st.ops and op_place(st.ops[0]) is not None):
+                    if local_flows_from(f, op_place(st.ops[0]).local if st.ops and op_place(st.ops[0]) is not None else -1,
+                                        lambda d: d is t, 8) is not None:
+                        lens.append(t)
+                        break
+    cx.floor("R31.offset-accounting lengths added to the running offset", len(lens), 1)
+
+    def origin(l, depth=0):
+        if depth > 8:
+            return ("deep",)
+        ds = local_defs(f, l)
+        if len(ds) != 1:
+            return ("multi",)
+        d = ds[0]
+        if hasattr(d, "rv"):
+            if d.rv in ("use", "ref", "copy_for_deref"):
+                pl = d.place if d.place is not None else (op_place(d.ops[0]) if d.ops else None)
+                if pl is None:
+                    return ("const",)
+                if any(x.startswith("@Some") for x in pl.proj):
+                    prod = [x for x in local_defs(f, pl.local) if not hasattr(x, "rv")]
+                    if prod and re.search(r"Iterator>?::next$", prod[0].declared or prod[0].callee or ""):
+                        return ("iter-item", " ".join(prod[0].j.get("atys", [])))
+                return origin(pl.local, depth + 1)
+            return ("stmt", d.rv)
+        return ("call", (d.callee or d.declared or "?"))
+
+    for i, t in enumerate(lens):
+        o = origin(op_place(t.args[0]).local)
+        ok = o[0] == "iter-item" and re.search(r"Split|Lines", o[1]) is not None
+        cx.ob("R31.offset-accounting", "%s|cur_index-advances-by-split-piece#%d" % (f.name, i), ok,
+              "cur_index (the byte offset of the start of each line, compared with the span's byte offsets) is advanced "
+              "by the length of %s rather than of the piece produced by split: every later line's offsets drift and the "
+              "carets land under the wrong characters" % (o,), f.loc(t.line))
+    # the constant added per line is the byte length of the separator
+    adds = [st for st in f.stmts() if st.rv == "binop" and st.j["binop"].startswith("Add") and any(
+        op_place(o) is not None and any(op_place(o).local == t.dst.local for t in lens) for o in st.ops)]
+    for st in adds:
+        cs = [op_const(o) for o in st.ops if op_const(o)]
+        cx.ob("R31.offset-accounting", "%s|separator-length" % f.name, bool(cs) and sep_len is not None and str(cs[0].get("v")) == str(sep_len),
+              "the per-line increment must be the piece length plus the byte length of the separator (%s)" % sep_len, f.loc(st.line))
+
